@@ -151,6 +151,11 @@ class TxInterp(Interp):
                 if outer:
                     self.anomalies.append(("full-rollback-inside-enclosing-transaction", n.get("l"), st))
                 return [(st.with_ts(((), committed, lost or any(m_ & 1 for m_ in mods), mo, outer)), None)]
+            if (mods[-1] & 2) and len(mods) == 1 and self.entry_depth == 0 and outer is not True:
+                # an outermost savepoint started a transaction of its own; ROLLBACK TO undoes the work but neither
+                # removes the savepoint nor ends that transaction: the level stays open
+                self.anomalies.append(("outermost-savepoint-left-open", n.get("l"), st))
+                return [(st.with_ts((mods, committed, lost or bool(mods[-1] & 1), mo, outer)), None)]
             s = st.with_ts((mods[:-1], committed, lost or bool(mods[-1] & 1), mo, outer))
             return [(s, None)]
         if callee == "sqlite3_get_autocommit":
